@@ -58,6 +58,14 @@ def monitor(tr):
                 contact[(st["other_f"][1], st.get("other_member"))] = now
         if kind == "hb" and reply.get("kind") == "code" and reply["code"] in (0, 27):
             contact[(f[1], st["member"])] = now
+        if kind == "par" and reply.get("kind") == "par":
+            # either request of a two-request op is a contact like any other (a join that is answered, an accepted heartbeat)
+            for side in ("a", "b"):
+                w, o = st[side + "_f"], reply[side]
+                if w and w[0] == "join" and o.get("kind") == "join":
+                    contact[(w[1], o["me"])] = now
+                elif w and w[0] == "hb" and o.get("code") in (0, 27):
+                    contact[(w[1], st.get(side + "_member"))] = now
         if kind == "hb" and reply.get("kind") == "code" and reply["code"] == -1 and not st["everfault"]:
             out.append((i, "heartbeat-server-error", "heartbeat answered UNKNOWN_SERVER_ERROR without a store fault"))
         if kind != "cleanup":
@@ -90,8 +98,23 @@ def monitor(tr):
     return out
 
 
+def failover_precision_histories():
+    """A heartbeat lands at an arbitrary fraction of a wall-clock second; the member must still be there one second before
+    its session lapses, also when the coordinator that decides was restored from the store in between (the persisted
+    last-heartbeat must not be older than the real one).  Several rounds per history and several histories, so that
+    the fractions of a second at which the heartbeats land cover the whole second."""
+    hs = []
+    for etcd in (False, True, False, True, False, True):
+        h = ["reset etcd" if etcd else "reset", "meta 0=0,1", "join 1 c1 10000 30000 1 1 0", "sync 1 c1 @"]
+        for _ in range(4):
+            h += ["hb 1 c1 @", "failover", "tick 9000", "cleanup", "hb 1 c1 @", "tick 9000", "cleanup"]
+        hs.append(h)
+    return hs
+
+
 def run(ck):
-    G.run_property(ck, PROFILE, monitor, n_quick=200, n_thorough=2000, nops=45, rule=RULE)
+    G.run_property(ck, PROFILE, monitor, n_quick=200, n_thorough=2000, nops=45, rule=RULE,
+                   extra_histories=failover_precision_histories())
 
 
 def replay(ck, path):
